@@ -66,7 +66,7 @@ func (c *Ctx) queryText(o Obl, getModel bool, vals []string) string {
 	if getModel && len(vals) > 0 {
 		sb.WriteString("(get-value (" + strings.Join(vals, " ") + "))\n")
 	}
-	return sb.String()
+	return strings.ReplaceAll(sb.String(), "@fn:ctabf_", "ctaba_")
 }
 
 var solverCmds = map[string]func(timeout int) []string{
@@ -82,6 +82,7 @@ func (sv *Solver) run(name, query string, timeout int) (status, out string, ms i
 	ctx, cancel := context.WithTimeout(context.Background(), time.Duration(timeout+3)*time.Second)
 	defer cancel()
 	cmd := exec.CommandContext(ctx, args[0], args[1:]...)
+	query = strings.ReplaceAll(query, "@fn:ctabf_", "ctaba_")
 	if name == "cvc5" {
 		query = strings.Replace(query, "(set-option :produce-models true)\n", "", 1)
 	}
